@@ -224,7 +224,16 @@ pub enum Q2 {
     #[token(" ")] Space,
     #[regex(r"x$", priority = 5)] XAtEnd,
 }
-pub static Q2_DEF: Def = Def { name: "Q2", utf8: true, decide: no_callbacks, log_callbacks: false, default_err: plain_default, pats: &[] };
+pub static Q2_DEF: Def = Def {
+    name: "Q2", utf8: true, decide: no_callbacks, log_callbacks: false, default_err: plain_default,
+    pats: &[
+        Pat { p: P::Cat(&[P::Plus(&DIGIT), P::NotWordAhead]), prio: 2, act: Act::Tok(1) },
+        Pat { p: P::Cat(&[P::Plus(&DIGIT), P::Plus(&P::Class(&[(b'a', b'z')]))]), prio: 4, act: Act::Tok(2) },
+        Pat { p: P::Plus(&P::Class(&[(b'a', b'z')])), prio: 2, act: Act::Tok(3) },
+        Pat { p: P::Lit(b" "), prio: 2, act: Act::Tok(4) },
+        Pat { p: P::Cat(&[P::Lit(b"x"), P::AtEnd]), prio: 5, act: Act::Tok(5) },
+    ],
+};
 corpus_impl!(Q2, str, Q2_DEF, |t| match t { Q2::Int => 1, Q2::Dimension => 2, Q2::Ident => 3, Q2::Space => 4, Q2::XAtEnd => 5 }, |_e| 0, |_x| (0, true, 0, 0));
 
 // ---- C12: a definition with a Unicode-sensitive *str* subpattern, in str mode and with utf8 = false
@@ -274,3 +283,22 @@ pub static O3_DEF: Def = Def {
 };
 corpus_impl!(O3, bytes, O3_DEF, |t| match t { O3::H => 1, O3::JustH => 2 }, |_e| 0, |_x| (0, true, 0, 0));
 corpus_impl!(O3A, bytes, O3_DEF, |t| match t { O3A::H => 1, O3A::JustH => 2 }, |_e| 0, |_x| (0, true, 0, 0));
+
+/// a callback-less skip whose continuation bytes are not themselves skipped (line-comment shape): the partial lexer must not
+/// commit it while it can still grow
+#[derive(Logos, Debug, Clone, Copy, PartialEq)]
+#[logos(utf8 = false)]
+#[logos(skip("#[a-z]*"))]
+pub enum Q3 {
+    #[regex("[a-z]+")] Word,
+    #[token(" ")] Space,
+}
+pub static Q3_DEF: Def = Def {
+    name: "Q3", utf8: false, decide: no_callbacks, log_callbacks: false, default_err: plain_default,
+    pats: &[
+        Pat { p: P::Cat(&[P::Lit(b"#"), P::Star(&P::Class(&[(b'a', b'z')]))]), prio: 2, act: Act::Skip },
+        Pat { p: P::Plus(&P::Class(&[(b'a', b'z')])), prio: 2, act: Act::Tok(1) },
+        Pat { p: P::Lit(b" "), prio: 2, act: Act::Tok(2) },
+    ],
+};
+corpus_impl!(Q3, bytes, Q3_DEF, |t| match t { Q3::Word => 1, Q3::Space => 2 }, |_e| 0, |_x| (0, true, 0, 0));
